@@ -381,6 +381,72 @@ def rule_best(repo, tier):
     return res
 
 
+GETTERS = {'A', 'B', 'C', 'D', 'c1', 'c2'}
+
+
+@guarded
+def rule_sqz(repo, tier):
+    """A linearisation matrix (system.A: ns x ns, system.B: ns x nc, ...) is squeezed only under a test of its rank.  `M.squeeze(-2)` removes the
+    row axis of every matrix with ONE row, so for a one-dimensional state (inside the stated range) the unconditional form turns the (B, 1, ns)
+    matrix into a vector and the batched solve fails or broadcasts; the squeeze exists for the singleton axis a single-batch autograd Jacobian
+    carries and must be conditioned on that axis being there."""
+    res = RuleResult('C14.SQZ', 'LQR / MPC squeeze an axis of a linearisation matrix (system.A/B/C/D) only under a rank test of that matrix: the model '
+                     'dimensions themselves may be 1', floor=1)
+    n = 0
+    for mod in (LQR, 'pypose.module.mpc'):
+        for f in repo.module(mod).functions.values():
+            # names bound to a getter
+            bound = {}
+            for a in ast.walk(f.node):
+                if isinstance(a, ast.Assign):
+                    vals = a.value.elts if isinstance(a.value, ast.Tuple) else [a.value]
+                    tgts = a.targets[0].elts if isinstance(a.targets[0], ast.Tuple) and isinstance(a.value, ast.Tuple) and \
+                        len(a.targets[0].elts) == len(vals) else ([a.targets[0]] if len(vals) == 1 else [])
+                    for t, v in zip(tgts, vals):
+                        d = dotted(v)
+                        if isinstance(t, ast.Name) and d and d.split('.')[-1] in GETTERS and 'system' in d:
+                            bound[t.id] = d
+
+            def visit(body, guards):
+                nonlocal n
+                for st in body:
+                    if isinstance(st, ast.If):
+                        g = {x.id for x in ast.walk(st.test) if isinstance(x, ast.Name)} | {dotted(x) for x in ast.walk(st.test) if isinstance(x, ast.Attribute)}
+                        ranky = any(isinstance(x, ast.Attribute) and x.attr in ('ndim', 'shape') or
+                                    (isinstance(x, ast.Call) and isinstance(x.func, ast.Attribute) and x.func.attr in ('dim', 'size')) for x in ast.walk(st.test))
+                        visit(st.body, guards | (g if ranky else set()))
+                        visit(st.orelse, guards | (g if ranky else set()))
+                        continue
+                    for fld in ('body', 'orelse', 'finalbody'):
+                        sub = getattr(st, fld, None)
+                        if isinstance(sub, list) and sub and isinstance(sub[0], ast.stmt):
+                            visit(sub, guards)
+                    if isinstance(st, (ast.For, ast.While, ast.With, ast.Try)):
+                        continue
+                    for c in paths.calls_in(st):
+                        if isinstance(c.func, ast.Attribute) and c.func.attr == 'squeeze' and c.args:
+                            recv = c.func.value
+                            d = dotted(recv)
+                            origin = bound.get(d) if isinstance(recv, ast.Name) else (d if d and d.split('.')[-1] in GETTERS and 'system' in d else None)
+                            if origin is None:
+                                continue
+                            n += 1
+                            key = d
+                            # the matrices of one linearisation share their leading axes: a rank test of a sibling getter of the same system counts
+                            sysobj = origin.rsplit('.', 1)[0]
+                            ok = key in guards or origin in guards or any((bound.get(g) or g or '').rsplit('.', 1)[0] == sysobj and
+                                                                          (bound.get(g) or g or '').split('.')[-1] in GETTERS for g in guards if g)
+                            res.inst({'function': f.fq, 'squeeze': src(c)[:50], 'of': origin, 'under a rank test': ok}, (f.fq, src(c)))
+                            if not ok:
+                                res.add(Finding('C14.SQZ', f, '`%s` squeezes an axis of the linearisation matrix %s unconditionally: with a one-dimensional '
+                                                'state (or input) that axis is a model dimension, the matrix degenerates to a vector and the backward '
+                                                'recursion fails / broadcasts for batched systems' % (src(c)[:50], origin), node=c))
+            visit(f.node.body, set())
+    if n == 0:
+        res.inst({'squeezes of linearisation matrices': 0})
+    return res
+
+
 @guarded
 def rule_dyn(repo):
     """the transition the roll-outs rely on: the LTI/LTV equations (same analysis as C15.EQ, reported for C14: feasibility clause)"""
@@ -394,7 +460,7 @@ def rule_dyn(repo):
     return r
 
 
-def rules(repo, tier):
+def _rules_core(repo, tier):
     from ..stale import rule_stale
     from ..effects import rule_pure
     from ..fresh import rule_fresh
@@ -404,5 +470,13 @@ def rules(repo, tier):
             rule_fresh(repo, 'C14.FRESH', 'the roll-out buffers and the cost accumulator of a solve are allocated by that solve: nothing written in place '
                        'in lqr_forward / lqr_backward / MPC.forward is loaded from the controller object', 
                        [(LQR, 'LQR.lqr_forward'), (LQR, 'LQR.lqr_backward'), ('pypose.module.mpc', 'MPC.forward'), ('pypose.module.dynamics', 'runsys')]),
-            rule_clk(repo, tier), rule_feas_cost(repo, tier), rule_gain(repo, tier), rule_best(repo, tier), rule_dyn(repo),
+            rule_clk(repo, tier), rule_sqz(repo, tier), rule_feas_cost(repo, tier), rule_gain(repo, tier), rule_best(repo, tier), rule_dyn(repo),
             rule_stale(repo, 'C14.STALE', [(LQR, 'LQR.lqr_backward'), (LQR, 'LQR.lqr_forward'), ('pypose.module.mpc', 'MPC.forward'), ('pypose.module.dynamics', 'runsys')])]
+
+
+def rules(repo, tier):
+    from ..memo import rule_memo
+    return list(_rules_core(repo, tier)) + [rule_memo(repo, 'C14.MEMO', 'history independence: nothing computed from the contents of a tensor argument is kept '
+                                                      'under the identity, address or version of that tensor, in module-level storage, or published from a generator '
+                                                      'before it is complete - a later call with the same object and other contents must not be answered from it',
+                                                      ['pypose.module.lqr', 'pypose.module.mpc', 'pypose.module.dynamics'], floor=3)]
